@@ -141,8 +141,17 @@ def check_matrix(ctx):
             for s in stds:
                 jobs.append((u, c, s, ()))
     res = witness.run_matrix(jobs)
+    # a unit rejected by *every* compiler / standard level is an outdated witness (or a library change the other properties' checks judge):
+    # analysis-broken. The C20 clause is about configurations disagreeing: a unit some configurations accept and others reject.
+    by_unit = {}
+    for (u, c, s, e), rc, out in res:
+        by_unit.setdefault(u, []).append(rc == 0)
+    for u, oks in by_unit.items():
+        if not any(oks):
+            ctx.broken_later('C20.M: witness/%s is rejected by every compiler and standard level (witness outdated?)' % os.path.basename(u))
     for (u, c, s, e), rc, out in res:
         name = 'witness/%s' % os.path.basename(u)
         first = [l for l in out.splitlines() if 'error' in l][:2]
-        ctx.ob('C20.M', name, 'type-checks with %s -std=%s' % (c, s), rc == 0, detail='\n'.join(first),
-               key_detail='%s %s' % (c, s))
+        ctx.ob('C20.M', name, 'type-checks with %s -std=%s like with the other configurations' % (c, s), rc == 0 or not any(by_unit[u]),
+               detail='\n'.join(first), key_detail='%s %s' % (c, s))
+    witness.check_static_unit(ctx, 'C20.M', os.path.join(extract.VERIF, 'witness', 's_select.cpp'), 'policy defaults (map, threading, callback)', tag='C20')
